@@ -32,7 +32,7 @@ SAFETY_FLAGS = ["--bounds-check", "--pointer-check", "--pointer-overflow-check",
 # property classes that are semantic (contract) obligations; everything else is a built-in safety check
 CONTRACT_CLASSES = {"postcondition", "precondition", "assigns", "assertion", "loop_invariant_base",
                     "loop_invariant_step", "loop_assigns", "loop_decreases", "loop_step_unwinding", "frees"}
-UNDECIDED_CLASSES = {"unwind", "recursion"}
+UNDECIDED_CLASSES = {"unwind", "recursion", "no-body"}
 
 TRUSTED_BASE = [
     "CBMC 6.11.0 C semantics, goto-instrument --dfcc contract instrumentation, SAT back end (MiniSat unless stated)",
@@ -190,6 +190,10 @@ def build_and_run(h, work, tier, keep=False):
         cmd += ["--float-overflow-check", "--nan-check"]
     for u in h["unwindset"]:
         cmd += ["--unwindset", u]
+        fn, rest = u.split(".", 1)
+        if h["enforce"] and fn == h["enforce"]:
+            # dfcc renames the function under contract; its loops are numbered under the wrapped name
+            cmd += ["--unwindset", f"{fn}_wrapped_for_contract_checking.{rest}"]
     if h["unwind"] is not None:
         cmd += ["--unwind", str(h["unwind"])]
     if h["unwindset"] or h["unwind"] is not None:
